@@ -23,6 +23,9 @@ def module_for(prop):
 
 
 def gen_plan(prop, base_seed, i, tier):
+    from . import common
+
+    common.CURRENT_TIER = tier
     m = module_for(prop)
     if MODULES[prop] == "checks.rowprops":
         return m.gen_plan(prop, base_seed, i, tier)
@@ -45,6 +48,10 @@ def rule(prop):
     return m.RULE
 
 
+_PRIOR = []  # plans this worker process has executed before (process-global state in the code under
+             # test, e.g. a module-level cache, makes a run depend on them)
+
+
 def execute(plan):
     import time
 
@@ -52,6 +59,17 @@ def execute(plan):
     m = module_for(plan["property"])
     out = m.execute(plan)
     out["wall"] = time.time() - t
+    out["prior"] = list(_PRIOR)
+    if plan.get("_idx") is not None:
+        _PRIOR.append(plan["_idx"])
+    return out
+
+
+def execute_seq(arg):
+    """Run a sequence of plans in this (fresh) process; the result is that of the last one."""
+    out = None
+    for p in arg["plans"]:
+        out = execute(p)
     return out
 
 
